@@ -221,6 +221,8 @@ impl Poll {
     }
 
     pub(crate) fn poll(&self, mut timeout: Option<Duration>) -> crate::Result<Vec<PollEvent>> {
+        #[cfg(feature = "verif")]
+        use crate::verif::Instant;
         // Adjust the timeout for the timers.
         let next_timeout = self
             .timers
@@ -234,7 +236,11 @@ impl Poll {
 
         let mut events = self.events.borrow_mut();
         events.clear();
+        #[cfg(feature = "verif")]
+        let timeout = crate::verif::before_wait(&self.poller, timeout);
         self.poller.wait(&mut events, timeout)?;
+        #[cfg(feature = "verif")]
+        crate::verif::after_wait();
 
         // Convert `polling` events to `calloop` events.
         let level_triggered = self.level_triggered.as_ref().map(RefCell::borrow);
